@@ -116,7 +116,12 @@ impl TxtppPath for PathBuf {
                 Report::new(PathError::from(self))
                     .attach_printable(format!("path does not have {TXTPP_EXT} extension"))
             })?;
-            p.set_extension(self_ext);
+            // append instead of set_extension: the remaining stem may still contain a dot
+            // (`a.b.txtpp.c` -> `a.b.c`), and set_extension would replace `.b`
+            let mut name = p.into_os_string();
+            name.push(".");
+            name.push(self_ext);
+            p = PathBuf::from(name);
         }
 
         Ok(p)
